@@ -42,6 +42,7 @@ import SwcVerif.Model.AlgoRunRaster
 import SwcVerif.Model.AlgoRunImgIo
 import SwcVerif.Model.AlgoRunParse
 import SwcVerif.Model.AlgoRunCut
+import SwcVerif.Model.AlgoRunShortTip
 import SwcVerif.Model.AlgoRunRepair
 import SwcVerif.Model.AlgoRunAsc
 import SwcVerif.Model.AlgoRunAscLex
@@ -111,6 +112,7 @@ def dispatch (op : String) (args : List String) : String :=
   | "gimgsave" | "gimgload" | "gimgnd" | "gimgio" | "gimgget" | "gimgread" => AlgoRun.handleImgIo op args
   | "gparse" => AlgoRun.handleParse args
   | "gtosubtree" | "gcutenter" | "gcutdepth" | "gcutleave" | "gcutleaveset" | "gcuttype" | "gcutorder" => AlgoRun.handleCut op args
+  | "gcuttip" => AlgoRun.handleShortTip op args
   | "gsingleroot" => AlgoRun.handleSingleRoot args
   | "gnearest" => AlgoRun.handleNearest args
   | "greadfix" => AlgoRun.handleReadFix args
